@@ -772,6 +772,8 @@ class LLVM:
         if ex.depth > 400:
             raise Unsupported('C call depth')
         allocas = []
+        stk = ex.pstate.setdefault('cfun_stack', [])
+        stk.append(f['name'])
         try:
             cur = f['entry']
             prev = None
@@ -809,6 +811,7 @@ class LLVM:
                 prev, cur = cur, nxt
         finally:
             ex.depth -= 1
+            stk.pop()
             for o in allocas:
                 o.freed = True
 
@@ -938,6 +941,32 @@ class LLVM:
         if o in ('/', '%'):
             if ex.decide(int_binop('==', b, 0, w, False)):
                 raise GoPanic('c-div-by-zero', I['src'])
+        nowrap = getattr(ex, 'c_mul_nowrap', None)
+        if nowrap and o == '*' and w == 64 and not (isinstance(a, int) and isinstance(b, int)):
+            stk = ex.pstate.get('cfun_stack') or ['']
+            if stk[-1] in nowrap:
+                # lemma mode: the unsigned 64-bit product must equal the integer product. Upper bounds proved
+                # on this path (factor <= 255 by a linear solver query, products by arithmetic) settle the
+                # common case; the solver's bvumul_noovfl decides the rest.
+                ub = ex.pstate.setdefault('ubound', {})
+                def bound(x):
+                    if isinstance(x, int):
+                        return x
+                    k = x.get_id()
+                    if k not in ub:
+                        ub[k] = 255 if ex.must(z3.ULE(x, z3.BitVecVal(255, 64))) else (1 << 64) - 1
+                    return ub[k]
+                ua, ubb = bound(a), bound(b)
+                r = int_binop(o, a, b, w, sg, w)
+                ex.events.append(('assert', 'no 64-bit wrap-around in ' + stk[-1]))
+                ex.pstate.setdefault('mul_log', []).append((a, b, r))
+                if ua * ubb < (1 << 64):
+                    ex.stats.assert_queries += 1
+                    if not isinstance(r, int):
+                        ub[r.get_id()] = ua * ubb
+                else:
+                    ex.verif_assert(z3.BVMulNoOverflow(tobv(a, 64), tobv(b, 64), False), 'unsigned 64-bit product in %s equals the integer product (no wrap-around)' % stk[-1][1:])
+                return r
         return int_binop(o, a, b, w, sg, w)
 
     def icmp(self, ex, I, a, b):
